@@ -428,6 +428,205 @@ theorem step_ret_cons_call (T : TopCtx V c R vm r a as' rest) (ha : Anch p.code 
   cases hargs
   exact push_call hc hV T ha htail (hacc.snoc hh) hfo hctx hss hk cfg0
 
+theorem step_loop (T : TopCtx V c R vm r a as' rest) (ha : Anch p.code vm.ip ip)
+    {id : Nat} {x : Name} {body : Stmts} {pos : Pos} {ss : Stmts}
+    (hfo : FrameOK vm.data a (V.ri r) env ctrs)
+    (hat : FrameAt (V.env r) (V.G r) (Holds vm.data a)
+      ⟨r, env, ctrs, .cons (.loop id x body pos) ss, k, .run⟩ ip 0) (cfg0 : Config) :
+    StepRes V c R cfg0 vm
+      (if env.get x ≠ 0 then
+        ⟨⟨r, env, ctrs.set id (env.get x), body, .loop id body ss k, .run⟩ :: rest, .running⟩
+       else ⟨⟨r, env, ctrs.set id (env.get x), ss, k, .run⟩ :: rest, .running⟩) := by
+  simp only [FrameAt, SAt, SAt1] at hat
+  obtain ⟨pcE, ⟨pc1, ⟨ctr, rx, offE, offL, pcB, hctr, hrx, h1, h2, hbody, h3, h4, hA1, hA2, rfl⟩,
+    hss⟩, hk⟩ := hat
+  have he : (V.env r).code = p.code := rfl
+  have hx := hfo.reg hrx
+  obtain ⟨_, _, vm1, s1, g1, ip1, p1, hh1⟩ :=
+    r_add hc T.good T.stk ha (at_code he h1) hx (clamp_zero hx.2.2.2) hx.2.2.2
+  have st1 := p1.stack.trans T.stk
+  have a1 : Anch p.code vm1.ip ((V.env r).next ip) := by
+    rw [ip1, next_code he]; exact Anch.self _ _
+  obtain ⟨vm2, s2, g2, ip2, st2, d2⟩ := r_jmpc hc g1 st1 a1 (at_code he h2) hh1
+  have hfo2 : FrameOK vm2.data a (V.ri r) env (ctrs.set id (env.get x)) := by
+    rw [d2]
+    exact hfo.write_ctr (hV.nodup r T.rle) hctr hh1
+      (fun r' w _ hne hw => p1.other r' w (by simp [hne]) hw)
+  have hsb : SameBelow a.dataStart vm.data vm2.data := by rw [d2]; exact p1.below
+  by_cases hn : env.get x ≠ 0
+  · rw [if_pos hn]
+    rw [if_neg hn] at ip2
+    refine StepRes.run vm2 rfl (Or.inl (s1.trans s2)) ?_
+    refine T.finish g2 (st2.trans p1.stack) hsb (ip' := (V.env r).next ((V.env r).next ip)) ?_ rfl hfo2
+      ?_ (fun ⟨_, _, h⟩ => nomatch h)
+    · rw [ip2, next_code he ((V.env r).next ip)]; exact Anch.self _ _
+    · simp only [FrameAt, KAt]
+      exact ⟨pcB, hbody, ctr, offE, offL, (V.env r).next ip, pcE, hctr, h2, hbody, h3, h4, hA1, hA2,
+        hss, hk⟩
+  · rw [if_neg hn]
+    have hn0 : env.get x = 0 := by omega
+    rw [if_pos hn0] at ip2
+    refine StepRes.run vm2 rfl (Or.inl (s1.trans s2)) ?_
+    refine T.finish g2 (st2.trans p1.stack) hsb
+      (ip' := skipc (V.env r).code ((V.env r).next pcB) + 1) ?_ rfl hfo2 ?_
+      (fun ⟨_, _, h⟩ => nomatch h)
+    · rw [ip2]; exact hA2
+    · simp only [FrameAt]
+      exact ⟨pcE, hss, hk⟩
+
+theorem step_while (T : TopCtx V c R vm r a as' rest) (ha : Anch p.code vm.ip ip)
+    {x : Name} {body : Stmts} {pos : Pos} {ss : Stmts}
+    (hfo : FrameOK vm.data a (V.ri r) env ctrs)
+    (hat : FrameAt (V.env r) (V.G r) (Holds vm.data a)
+      ⟨r, env, ctrs, .cons (.while_ x body pos) ss, k, .run⟩ ip 0) (cfg0 : Config) :
+    StepRes V c R cfg0 vm
+      (if env.get x ≠ 0 then
+        ⟨⟨r, env, ctrs, body, .while_ x body ss k, .run⟩ :: rest, .running⟩
+       else ⟨⟨r, env, ctrs, ss, k, .run⟩ :: rest, .running⟩) := by
+  simp only [FrameAt, SAt, SAt1] at hat
+  obtain ⟨pcE, ⟨pc1, ⟨rx, tmp, offE, offL, pcB, hrx, htmp, h1, h2, hbody, h3, hA1, hA2, rfl⟩,
+    hss⟩, hk⟩ := hat
+  have he : (V.env r).code = p.code := rfl
+  have hx := hfo.reg hrx
+  obtain ⟨_, _, vm1, s1, g1, ip1, p1, hh1⟩ :=
+    r_add hc T.good T.stk ha (at_code he h1) hx (clamp_zero hx.2.2.2) hx.2.2.2
+  have st1 := p1.stack.trans T.stk
+  have a1 : Anch p.code vm1.ip ((V.env r).next ip) := by
+    rw [ip1, next_code he]; exact Anch.self _ _
+  obtain ⟨vm2, s2, g2, ip2, st2, d2⟩ := r_jmpc hc g1 st1 a1 (at_code he h2) hh1
+  have hfo2 : FrameOK vm2.data a (V.ri r) env ctrs := by
+    rw [d2]
+    refine hfo.pres (fun r' w hn hw => p1.other r' w ?_ hw)
+    intro hm
+    rw [List.mem_singleton] at hm
+    subst hm
+    rw [show (V.env r).me.isNamed r' = (V.ri r).isNamed r' from rfl, hn] at htmp
+    cases htmp
+  have hsb : SameBelow a.dataStart vm.data vm2.data := by rw [d2]; exact p1.below
+  by_cases hn : env.get x ≠ 0
+  · rw [if_pos hn]
+    rw [if_neg hn] at ip2
+    refine StepRes.run vm2 rfl (Or.inl (s1.trans s2)) ?_
+    refine T.finish g2 (st2.trans p1.stack) hsb (ip' := (V.env r).next ((V.env r).next ip)) ?_ rfl hfo2
+      ?_ (fun ⟨_, _, h⟩ => nomatch h)
+    · rw [ip2, next_code he ((V.env r).next ip)]; exact Anch.self _ _
+    · simp only [FrameAt, KAt]
+      exact ⟨pcB, hbody, rx, tmp, offE, offL, ip, pcE, hrx, htmp, h1, h2, hbody, h3, hA1, hA2,
+        hss, hk⟩
+  · rw [if_neg hn]
+    have hn0 : env.get x = 0 := by omega
+    rw [if_pos hn0] at ip2
+    refine StepRes.run vm2 rfl (Or.inl (s1.trans s2)) ?_
+    refine T.finish g2 (st2.trans p1.stack) hsb
+      (ip' := skipc (V.env r).code pcB + 1) ?_ rfl hfo2 ?_
+      (fun ⟨_, _, h⟩ => nomatch h)
+    · rw [ip2]; exact hA2
+    · simp only [FrameAt]
+      exact ⟨pcE, hss, hk⟩
+
+theorem step_end_loop (T : TopCtx V c R vm r a as' rest) (ha : Anch p.code vm.ip ip)
+    {id : Nat} {body ss : Stmts} {k' : Kont}
+    (hfo : FrameOK vm.data a (V.ri r) env ctrs)
+    (hat : FrameAt (V.env r) (V.G r) (Holds vm.data a)
+      ⟨r, env, ctrs, .nil, .loop id body ss k', .run⟩ ip 0) (cfg0 : Config) :
+    StepRes V c R cfg0 vm
+      (if ctrs.get id - 1 ≠ 0 then
+        ⟨⟨r, env, ctrs.set id (ctrs.get id - 1), body, .loop id body ss k', .run⟩ :: rest, .running⟩
+       else ⟨⟨r, env, ctrs.set id (ctrs.get id - 1), ss, k', .run⟩ :: rest, .running⟩) := by
+  simp only [FrameAt, SAt, KAt] at hat
+  obtain ⟨pcE, rfl, ctr, offE, offL, pJ, pcR, hctr, hJ, hbody, h3, h4, hA1, hA2, hss, hk⟩ := hat
+  have he : (V.env r).code = p.code := rfl
+  have hc0 := hfo.2 id ctr hctr
+  obtain ⟨_, _, vm1, s1, g1, ip1, p1, hh1⟩ :=
+    r_add hc T.good T.stk ha (at_code he h3) hc0 (clamp_pred hc0.2.2.2)
+      (Nat.le_trans (Nat.sub_le _ _) hc0.2.2.2)
+  have st1 := p1.stack.trans T.stk
+  have a1 : Anch p.code vm1.ip ((V.env r).next pcE) := by
+    rw [ip1, next_code he]; exact Anch.self _ _
+  obtain ⟨vm2, s2, g2, ip2, st2, d2⟩ := r_jmp hc g1 a1 (at_code he h4)
+  have a2 : Anch p.code vm2.ip pJ := by rw [ip2]; exact hA1
+  have hh2 : Holds vm2.data a ctr (ctrs.get id - 1) := by rw [d2]; exact hh1
+  obtain ⟨vm3, s3, g3, ip3, st3, d3⟩ := r_jmpc hc g2 (st2.trans st1) a2 (at_code he hJ) hh2
+  have hfo3 : FrameOK vm3.data a (V.ri r) env (ctrs.set id (ctrs.get id - 1)) := by
+    rw [d3, d2]
+    exact hfo.write_ctr (hV.nodup r T.rle) hctr hh1
+      (fun r' w _ hne hw => p1.other r' w (by simp [hne]) hw)
+  have hsb : SameBelow a.dataStart vm.data vm3.data := by rw [d3, d2]; exact p1.below
+  have hst3 : vm3.stack = vm.stack := (st3.trans st2).trans p1.stack
+  by_cases hn : ctrs.get id - 1 ≠ 0
+  · rw [if_pos hn]
+    rw [if_neg hn] at ip3
+    refine StepRes.run vm3 rfl (Or.inl ((s1.trans s2).trans s3)) ?_
+    refine T.finish g3 hst3 hsb (ip' := (V.env r).next pJ) ?_ rfl hfo3
+      ?_ (fun ⟨_, _, h⟩ => nomatch h)
+    · rw [ip3, next_code he pJ]; exact Anch.self _ _
+    · simp only [FrameAt, KAt]
+      exact ⟨pcE, hbody, ctr, offE, offL, pJ, pcR, hctr, hJ, hbody, h3, h4, hA1, hA2, hss, hk⟩
+  · rw [if_neg hn]
+    have hn0 : ctrs.get id - 1 = 0 := by omega
+    rw [if_pos hn0] at ip3
+    refine StepRes.run vm3 rfl (Or.inl ((s1.trans s2).trans s3)) ?_
+    refine T.finish g3 hst3 hsb
+      (ip' := skipc (V.env r).code ((V.env r).next pcE) + 1) ?_ rfl hfo3 ?_
+      (fun ⟨_, _, h⟩ => nomatch h)
+    · rw [ip3]; exact hA2
+    · simp only [FrameAt]
+      exact ⟨pcR, hss, hk⟩
+
+theorem step_end_while (T : TopCtx V c R vm r a as' rest) (ha : Anch p.code vm.ip ip)
+    {x : Name} {body ss : Stmts} {k' : Kont}
+    (hfo : FrameOK vm.data a (V.ri r) env ctrs)
+    (hat : FrameAt (V.env r) (V.G r) (Holds vm.data a)
+      ⟨r, env, ctrs, .nil, .while_ x body ss k', .run⟩ ip 0) (cfg0 : Config) :
+    StepRes V c R cfg0 vm
+      (if env.get x ≠ 0 then
+        ⟨⟨r, env, ctrs, body, .while_ x body ss k', .run⟩ :: rest, .running⟩
+       else ⟨⟨r, env, ctrs, ss, k', .run⟩ :: rest, .running⟩) := by
+  simp only [FrameAt, SAt, KAt] at hat
+  obtain ⟨pcE, rfl, rx, tmp, offE, offL, pL, pcR, hrx, htmp, h1, h2, hbody, h3, hA1, hA2, hss, hk⟩ :=
+    hat
+  have he : (V.env r).code = p.code := rfl
+  obtain ⟨vm0, s0, g0, ip0, st0, d0⟩ := r_jmp hc T.good ha (at_code he h3)
+  have a0 : Anch p.code vm0.ip pL := by rw [ip0]; exact hA1
+  have hx : Holds vm0.data a rx (env.get x) := by rw [d0]; exact hfo.reg hrx
+  obtain ⟨_, _, vm1, s1, g1, ip1, p1, hh1⟩ :=
+    r_add hc g0 (st0.trans T.stk) a0 (at_code he h1) hx (clamp_zero hx.2.2.2) hx.2.2.2
+  have st1 := (p1.stack.trans st0).trans T.stk
+  have a1 : Anch p.code vm1.ip ((V.env r).next pL) := by
+    rw [ip1, next_code he]; exact Anch.self _ _
+  obtain ⟨vm2, s2, g2, ip2, st2, d2⟩ := r_jmpc hc g1 st1 a1 (at_code he h2) hh1
+  have hfo2 : FrameOK vm2.data a (V.ri r) env ctrs := by
+    rw [d2]
+    refine hfo.pres (fun r' w hn hw => p1.other r' w ?_ (by rw [d0]; exact hw))
+    intro hm
+    rw [List.mem_singleton] at hm
+    subst hm
+    rw [show (V.env r).me.isNamed r' = (V.ri r).isNamed r' from rfl, hn] at htmp
+    cases htmp
+  have hsb : SameBelow a.dataStart vm.data vm2.data := by
+    rw [d2]; have := p1.below; rw [d0] at this; exact this
+  have hst2 : vm2.stack = vm.stack := (st2.trans p1.stack).trans st0
+  by_cases hn : env.get x ≠ 0
+  · rw [if_pos hn]
+    rw [if_neg hn] at ip2
+    refine StepRes.run vm2 rfl (Or.inl ((s0.trans s1).trans s2)) ?_
+    refine T.finish g2 hst2 hsb (ip' := (V.env r).next ((V.env r).next pL)) ?_ rfl hfo2
+      ?_ (fun ⟨_, _, h⟩ => nomatch h)
+    · rw [ip2, next_code he ((V.env r).next pL)]; exact Anch.self _ _
+    · simp only [FrameAt, KAt]
+      exact ⟨pcE, hbody, rx, tmp, offE, offL, pL, pcR, hrx, htmp, h1, h2, hbody, h3, hA1, hA2,
+        hss, hk⟩
+  · rw [if_neg hn]
+    have hn0 : env.get x = 0 := by omega
+    rw [if_pos hn0] at ip2
+    refine StepRes.run vm2 rfl (Or.inl ((s0.trans s1).trans s2)) ?_
+    refine T.finish g2 hst2 hsb
+      (ip' := skipc (V.env r).code pcE + 1) ?_ rfl hfo2 ?_
+      (fun ⟨_, _, h⟩ => nomatch h)
+    · rw [ip2]; exact hA2
+    · simp only [FrameAt]
+      exact ⟨pcR, hss, hk⟩
+
 end cases
 
 end
